@@ -364,6 +364,7 @@ func (r *Router) saveStateSnapshot() error {
 		slog.Error("Unable to save state", "error", err, "path", r.statePath)
 		return err
 	}
+	verifPoint("snap.renamed", r.statePath)
 
 	slog.Debug("Saved state", "path", r.statePath)
 	return nil
